@@ -715,7 +715,12 @@ def job_linop(prop, cls, v, timeout_ms):
             return [("%s:constructs-without-error" % prop, [], z3.BoolVal(False))]
         try:
             return linop_obligations(r.value, {prop})
+        except snp.NonLinear as e:
+            return [("%s:apply-is-C-linear-in-its-input(%s)" % (prop, str(e)[:60]), [], z3.BoolVal(False))]
         except (snp.ModelledError, ValueError, RuntimeError) as e:
+            c = e.__cause__
+            if isinstance(c, snp.NonLinear):
+                return [("%s:apply-is-C-linear-in-its-input(%s)" % (prop, str(c)[:60]), [], z3.BoolVal(False))]
             return [("%s:apply-without-error(%s)" % (prop, type(e).__name__), [], z3.BoolVal(False))]
     obs, covers = path_obligations("%s/linop/%s" % (prop, inst), results, post, instance=inst, fn_record=rec)
     return check_obligations(obs, timeout_ms) + covers
